@@ -108,15 +108,19 @@ package base
 
 // ---- files awaiting write-back are never deleted (properties C10, C31) -----------------------------
 //
-// Delete is the only function of the package that removes an entry's files (os.RemoveAll of its
-// directory; C11: that single RemoveAll of the entry's own directory is its whole file-system
-// frame - fs_effects). The sink rule: it is reached only when the persist flag could be read and is false,
-// or does not exist; if the flag cannot be read the file is kept.
+// Delete is the only function of the package that removes an entry's files. Its whole file-system
+// frame is os.Remove - the non-recursive removal of one file or of one empty directory (fs_effects;
+// C11): names may contain slashes, so an entry's directory can hold the directories of other
+// entries ("a/b" under "a"), possibly awaiting write-back, and a recursive removal of the
+// directory (os.RemoveAll, as it was) takes them along - see known_findings.txt.
+// The sink rule: a removal is reached only when the persist flag could be read and is false, or
+// does not exist; if the flag cannot be read the file is kept.
 //@ func localFileEntry.Delete
 //@   requires entry != nil
 //@   modifies *
-//@   fs_effects os.RemoveAll
-//@   assert never_while_persisted: at os.RemoveAll#0 :: !persist.Value
+//@   fs_effects os.Remove
+//@   assert never_while_persisted: at os.Remove#0 :: !persist.Value
+//@   assert dir_never_while_persisted: at os.Remove#1 :: !persist.Value && !nested
 
 // ---- LRU file map (property C10) ------------------------------------------------------------------
 //
